@@ -29,6 +29,15 @@ Theorem C18_sub_inplace : forall ah al bh bl rh rl,
 Proof. exact sub_inplace_eq. Qed.
 Print Assumptions C18_sub_inplace.
 
+(* "a == b is allowed" for the in-place functions: the source translated with b aliased to a *)
+Theorem C18_inplace_aliased : forall ah al, wf128 ah al ->
+  val128 (sc_uint128_add_inplace_aliased ah al) = (2 * val128 (ah, al)) mod 2 ^ 128 /\
+  val128 (sc_uint128_sub_inplace_aliased ah al) = 0 /\
+  sc_uint128_bitwise_or_inplace_aliased ah al = (ah, al) /\
+  sc_uint128_bitwise_and_inplace_aliased ah al = (ah, al).
+Proof. exact aliased_correct. Qed.
+Print Assumptions C18_inplace_aliased.
+
 (* logical shifts by ANY count 0 <= s < 2^31 (counts >= 128 give 0) *)
 Theorem C18_shift_right : forall h l s rh rl, wf128 h l -> 0 <= s < 2 ^ 31 ->
   val128 (sc_uint128_shift_right h l s rh rl) = val128 (h, l) / 2 ^ s
